@@ -69,15 +69,30 @@ def run_prog(prog, avail):
         elif t == "block":
             k = next(counter)
             before = state()
-            entered = False
+            entered = [False]
+            how = p.get("how", "with")
             try:
-                with config_context(plot_backend=concrete(p["v"], p.get("salt", 0))):
-                    entered = True
-                    trace.append(state())
-                    go(p["body"])
+                if how == "decorator":
+                    # decorated when the program started, called now: the configuration to restore is the one at call time
+                    made = prepared[id(p)]
+                    if isinstance(made, BaseException):
+                        raise made
+                    made(entered)
+                else:
+                    if how == "deferred":
+                        # the context manager object was created when the program started and is entered only now
+                        cm = prepared[id(p)]
+                        if isinstance(cm, BaseException):
+                            raise cm
+                    else:
+                        cm = config_context(plot_backend=concrete(p["v"], p.get("salt", 0)))
+                    with cm:
+                        entered[0] = True
+                        trace.append(state())
+                        go(p["body"])
             finally:
                 trace.append(state())
-                events.append(("block", k, p["v"], entered, before, state()))
+                events.append(("block", k, p["v"], entered[0], before, state()))
         elif t == "catch":
             try:
                 go(p["body"])
@@ -92,8 +107,35 @@ def run_prog(prog, avail):
                 pass
             trace.append(state())
 
+    prepared = {}
+
+    def prepare(p):
+        """create the deferred context manager objects / decorate the functions before anything runs"""
+        if p["t"] == "seq":
+            prepare(p["a"])
+            prepare(p["b"])
+        elif p["t"] in ("block", "catch", "catchAll"):
+            if p["t"] == "block" and p.get("how") in ("deferred", "decorator"):
+                try:
+                    cm = config_context(plot_backend=concrete(p["v"], p.get("salt", 0)))
+                    if p["how"] == "decorator":
+                        def make(body):
+                            @cm
+                            def f(entered):
+                                entered[0] = True
+                                trace.append(state())
+                                go(body)
+                            return f
+                        prepared[id(p)] = make(p["body"])
+                    else:
+                        prepared[id(p)] = cm
+                except BaseException as e:  # an implementation may validate eagerly: raised where the block starts
+                    prepared[id(p)] = e
+            prepare(p["body"])
+
     out = "ok"
     try:
+        prepare(prog)
         go(prog)
     except UserExc:
         out = "UserExc"
@@ -130,7 +172,8 @@ def gen_tree(rng, depth, budget):
     if r < 0.35:
         return {"t": "seq", "a": gen_tree(rng, depth - 1, budget), "b": gen_tree(rng, depth - 1, budget)}
     if r < 0.65:
-        return {"t": "block", "v": rng.choice(VALS), "salt": rng.randint(0, 20), "body": gen_tree(rng, depth - 1, budget)}
+        return {"t": "block", "v": rng.choice(VALS), "salt": rng.randint(0, 20), "how": rng.choice(["with", "with", "with", "deferred", "deferred", "decorator"]),
+                "body": gen_tree(rng, depth - 1, budget)}
     if r < 0.8:
         return {"t": rng.choice(["catch", "catch", "catchAll"]), "body": gen_tree(rng, depth - 1, budget)}
     return gen_tree(rng, 0, budget)
